@@ -178,7 +178,7 @@ def parse_vc(path):
         elif d == "loop":
             cur = dict(kind="loop", fn=parts[1], n=int(parts[2]), line=ln)
         elif d == "hint":
-            m = re.match(r'@@\s*hint\s+(\S+)\s+(before|after)\s+"(.*)"(?:\s+#(\d+))?(?:\s+\+(\d+))?\s*$', raw)
+            m = re.match(r'@@\s*hint\s+(\S+)\s+(before|after)\s+"(.*)"(?:\s+#(\d+))?(?:\s+([+-]\d+))?\s*$', raw)
             if not m:
                 raise SystemExit("%s:%d: bad hint" % (path, ln))
             cur = dict(kind="hint", fn=m.group(1), where=m.group(2), anchor=m.group(3), nth=int(m.group(4) or 1), plus=int(m.group(5) or 0), line=ln)
